@@ -2,6 +2,7 @@ package rules
 
 import (
 	"go/ast"
+	"go/token"
 	"go/types"
 
 	"sialint/internal/cfgx"
@@ -9,7 +10,7 @@ import (
 )
 
 func init() {
-	Explanations["C05"] = "Decides structural necessary conditions of 'the pool is a valid continuation of the tip' in chain.Manager and the miner: (R1) every exported Manager method that reads the pool's lists, index map or weight — directly, in a closure, or through an unexported helper that does — calls the revalidation step after locking and before the first such read; (R2) every success return of the tip walker passes the store that discards the pool's mid-state; (R3) in the apply step Store.ApplyBlock(cs, cau) is followed on every path by the pool's apply update with the same two values, and likewise for revert; (R4) every registration of a transaction in the pool's index map is dominated by the success edge of consensus.Validate(V2)Transaction against the pool's mid-state for that transaction (directly, or through a staging slice filled only on that edge) and each such validation success is followed by the matching mid-state Apply; (R5) in MineBlock every append to the block's transaction lists lies on the passing side of the block-weight test and the loop leaves (break/return) on the failing side, so a prefix is taken; (R6) the proof updater used when blocks are applied/reverted under the pool excludes the ephemeral sentinel before range-checking a leaf index, so a pooled child of a pooled parent is not dropped by an unrelated block; (R7) every pointer the proof updater passes to its per-element closure points into the transaction it was given (through the parameter and index expressions) or through a pointer-typed value — never at a by-value loop copy, whose update would be discarded. NOT decided: that moved proofs verify, that a mined block is accepted, retention until confirmation."
+	Explanations["C05"] = "Decides structural necessary conditions of 'the pool is a valid continuation of the tip' in chain.Manager and the miner: (R1) every exported Manager method that reads the pool's lists, index map or weight — directly, in a closure, or through an unexported helper that does — calls the revalidation step after locking and before the first such read; (R2) every success return of the tip walker passes the store that discards the pool's mid-state; (R3) in the apply step Store.ApplyBlock(cs, cau) is followed on every path by the pool's apply update with the same two values, and likewise for revert; (R4) every registration of a transaction in the pool's index map is dominated by the success edge of consensus.Validate(V2)Transaction against the pool's mid-state for that transaction (directly, or through a staging slice filled only on that edge) and each such validation success is followed by the matching mid-state Apply; (R5) in MineBlock every append to the block's transaction lists lies on the passing side of the block-weight test and the loop leaves (break/return) on the failing side, so a prefix is taken; (R6) the proof updater used when blocks are applied/reverted under the pool excludes the ephemeral sentinel before range-checking a leaf index, so a pooled child of a pooled parent is not dropped by an unrelated block; (R7) every pointer the proof updater passes to its per-element closure points into the transaction it was given (through the parameter and index expressions) or through a pointer-typed value — never at a by-value loop copy, whose update would be discarded. (R8) in the pool rebuild every `weight +=` is dominated by a reset of the weight to zero with no other adjustment between them, so the figure the eviction test reads is the weight of the transactions actually pooled. NOT decided: that moved proofs verify, that a mined block is accepted, retention until confirmation."
 
 	register(&Rule{ID: "C05.R1", Prop: "C05", Floor: 10, Doc: "revalidate-before-read in every exported pool reader", Run: c05r1})
 	register(&Rule{ID: "C05.R2", Prop: "C05", Floor: 1, Doc: "tip change discards the pool mid-state", Run: c05r2})
@@ -17,6 +18,7 @@ func init() {
 	register(&Rule{ID: "C05.R4", Prop: "C05", Floor: 4, Doc: "only transactions validated against the pool mid-state are admitted, and each is applied to it", Run: c05r4})
 	register(&Rule{ID: "C05.R5", Prop: "C05", Floor: 2, Doc: "mined block takes pool prefixes up to the weight limit", Run: c05r5})
 	register(&Rule{ID: "C05.R7", Prop: "C05", Floor: 4, Doc: "the proof updater hands out pointers into the transaction itself, never into a loop copy", Run: c05r7})
+	register(&Rule{ID: "C05.R8", Prop: "C05", Floor: 2, Doc: "rebuilding the pool restarts its weight from zero before re-adding transaction weights", Run: c05r8})
 	register(&Rule{ID: "C05.R6", Prop: "C05", Floor: 1, Doc: "moving pooled proofs does not declare ephemeral inputs invalid (same check as C13.R6)", Run: ephemeralSkipped})
 }
 
@@ -461,4 +463,65 @@ func c05r7(c *Ctx) {
 func isPointer(t types.Type) bool {
 	_, ok := t.Underlying().(*types.Pointer)
 	return ok
+}
+
+// c05r8: the pool's recorded weight is what the eviction test reads ("the pool
+// is full"). When the pool is rebuilt for a new tip, every surviving
+// transaction's weight is added again, so the total must restart from zero on
+// every path into the re-adding loops; otherwise the total grows with every
+// block and, once past the limit, the eviction loop empties a pool that is far
+// from full.
+func c05r8(c *Ctx) {
+	pf := getPoolFields(c.P)
+	f := revalidateFn(c, pf)
+	g := f.Graph()
+	c.VisitGraph(f)
+	var adds, resets, others []*cfgx.Node
+	for _, n := range g.Nodes {
+		if n.AST == nil {
+			continue
+		}
+		for _, w := range f.WritesIn(n.AST, false) {
+			if f.FieldOf(w.LHS) != pf.weight {
+				continue
+			}
+			switch {
+			case w.Tok == token.ADD_ASSIGN:
+				adds = append(adds, n)
+			case w.Tok == token.ASSIGN && w.RHS != nil:
+				if v, ok := f.ConstInt(w.RHS); ok && v == 0 {
+					resets = append(resets, n)
+				} else if be, ok := ast.Unparen(w.RHS).(*ast.BinaryExpr); ok && be.Op == token.ADD && (f.FieldOf(be.X) == pf.weight || f.FieldOf(be.Y) == pf.weight) {
+					adds = append(adds, n)
+				} else {
+					others = append(others, n)
+				}
+			default:
+				others = append(others, n)
+			}
+		}
+	}
+	if len(adds) == 0 {
+		ir.Fail("the pool rebuild does not add transaction weights to the pool's weight")
+	}
+	for _, a := range adds {
+		ob := c.Ob(f, "weight-restarts-from-zero", a.Pos())
+		good := false
+		for _, r := range resets {
+			if r == a || !g.DominatedByNode(a, r) {
+				continue
+			}
+			dirty := false
+			between := pathNodesBetween(g, r, a)
+			for _, o := range others {
+				if between[o] {
+					dirty = true
+				}
+			}
+			if !dirty {
+				good = true
+			}
+		}
+		ob.Check(good, nil, "the weight added at %s is not preceded on every path by a reset of the pool's weight to zero (with no other adjustment in between): after each tip change the surviving transactions are counted again on top of the old total, and the eviction loop eventually empties a pool that is not full", c.P.Pos(a.Pos()))
+	}
 }
